@@ -465,6 +465,15 @@ func (c *Ctx) write(dir string, extra map[string]interface{}) {
 	dist := map[string]int{}
 	for _, l := range c.order {
 		dist["api_"+l[:1]]++
+		if strings.ContainsAny(l[:1], "TPNKE") {
+			// auxiliary stage lines: value / error only
+			w := "value"
+			if a := c.memo[l]; len(a) > 2 && (a[2:] == "E" || a[2:] == "none" || strings.HasPrefix(a[2:], "PANIC") || strings.HasPrefix(a[2:], "unsupported")) {
+				w = a[2:]
+			}
+			dist["answer_"+l[:1]+"_"+w]++
+			continue
+		}
 		dist["answer_"+strings.SplitN(c.memo[l], " ", 3)[0]+"_"+firstWord(c.memo[l][2:])]++
 	}
 	st := map[string]interface{}{
